@@ -35,10 +35,13 @@ void error(const struct location *loc, const char *fmt, ...) { CHECK(0, "a valid
 void fatal(const char *fmt, ...) { CHECK(0, "fatal()/internal error reached"); PATH_END(); }
 void *xmalloc(size_t n) { void *p = malloc(n); ASSUME(p != 0); return p; }
 #ifndef REPLAY
-static struct mapkey kpool[16][64]; static void *vpool[16][64]; static int nkp, nvp;
+#ifndef MAPCAP
+#define MAPCAP 64      /* largest initial hash-table capacity in the sources (props/parselib.py:mapcap reads it from the tree) */
+#endif
+static struct mapkey kpool[16][MAPCAP]; static void *vpool[16][MAPCAP]; static int nkp, nvp;
 void *xreallocarray(void *b, size_t n, size_t m) {
-	if (!b && m == sizeof(struct mapkey) && n <= 64 && nkp < 16) return kpool[nkp++];
-	if (!b && m == sizeof(void *) && n <= 64 && nvp < 16) return vpool[nvp++];
+	if (!b && m == sizeof(struct mapkey) && n <= MAPCAP && nkp < 16) return kpool[nkp++];
+	if (!b && m == sizeof(void *) && n <= MAPCAP && nvp < 16) return vpool[nvp++];
 	if (b) PATH_END();
 	void *p = malloc(n * m); ASSUME(p != 0); return p;
 }
